@@ -7,7 +7,7 @@ RULE = ("for each of a set of generated objects (construction programs in the wr
         "examples, the complete output length L is measured and the object is saved to a sink that accepts exactly k bytes for "
         "every k = 0..L+2 (quick: all k up to 200, then a stride plus all boundaries of the written pieces); plus an unopenable "
         "path and a device without space. Non-trivial = 0 < k < L (the failure happens midway).")
-ASSUMPTIONS = ["the sink fails by refusing bytes beyond its capacity (overwriting bytes already accepted is allowed)"]
+ASSUMPTIONS = ["capacity-limited sinks fail by refusing bytes beyond their capacity (overwriting bytes already accepted is allowed); the other failing streams are: unopenable path, existing directory, full device, a sink that refuses every seek, a stream that is not good() on entry"]
 KEEP_PREFIX = 2
 NO_SHRINK = True
 
